@@ -7,17 +7,12 @@
   Independent of the writer's own invariant/refinement proofs (C12/C13); only the small frame
   facts the server theorems C03/C07/C08/C09 need.
 -/
-import QV.Model.Writer
+import QV.Proofs.WriterV0
 
 namespace QV.Writer
 open QV
 
 /-! ### `writeAt` -/
-
-theorem writeAt_size (data : List UInt8) : ∀ (a : Bytes) (pos : Nat), (writeAt a pos data).size = a.size := by
-  induction data with
-  | nil => intro a pos; rfl
-  | cons b bs ih => intro a pos; simp [writeAt, ih]
 
 theorem writeAt_getElem? (data : List UInt8) : ∀ (a : Bytes) (pos i : Nat),
     (writeAt a pos data)[i]? =
@@ -73,7 +68,7 @@ theorem tryPush_ok (data : List UInt8) (s : State) (h1 : s.cursor + data.length 
   unfold tryPush
   have a : ¬ s.available < s.cursor := by omega
   have b : s.available - s.cursor ≥ data.length := by omega
-  simp only [a, b, if_false, if_true, write_ok _ _ _ h2]
+  simp only [a, b, h2, if_false, if_true]
 
 theorem u16be_length (v : Nat) : (u16be v).length = 2 := rfl
 theorem u32be_length (v : Nat) : (u32be v).length = 4 := rfl
@@ -118,7 +113,8 @@ def stXRcode (raw : Nat) (e : Edns) (s : State) : State :=
 
 theorem setExtendedRcode_eq (raw : Nat) (e : Edns) (s : State) (he : s.edns = some e) (hr : raw ≤ 4095)
     (h : 3 < s.octets.size) : setExtendedRcode raw s = (.ok (), stXRcode raw e s) := by
-  unfold setExtendedRcode
+  rw [setExtendedRcode_v0]
+  unfold V0.setExtendedRcode
   rw [he]
   simp only [show ¬ raw > 4095 by omega, if_false]
   rw [setHdr_eq _ _ s (by simpa [Gen.RCODE_BYTE] using h)]
@@ -154,7 +150,8 @@ theorem writeUncompressedName_ok (n : WName) (s : State) (h1 : s.cursor + n.wire
     ∃ p gl, writeUncompressedName n s =
       (.ok p, { s with octets := writeAt s.octets s.cursor n.wire, cursor := s.cursor + n.wire.length,
                        gLabels := gl }) := by
-  unfold writeUncompressedName
+  rw [writeUncompressedName_v0]
+  unfold V0.writeUncompressedName
   rw [tryPush_ok _ _ h1 h2]
   simp only [ghostLabels, modify_apply]
   exact ⟨_, _, rfl⟩
@@ -176,9 +173,11 @@ theorem addQuestion_first (qn : WName) (qt qc : Nat) (s : State)
   have hname : ∀ s0 : State, s0.qname = none → s0.mostRecentOwner = none → s0.mostRecentNameInRdata = none →
       writeUnhintedName qn s0 = writeUncompressedName qn s0 := by
     intro s0 a b c
-    unfold writeUnhintedName
+    rw [writeUnhintedName_v0]
+    unfold V0.writeUnhintedName
     split
-    · unfold writeCompressedUnhintedName compressDecision
+    · rw [writeCompressedUnhintedName_v0]
+      unfold V0.writeCompressedUnhintedName compressDecision
       simp [a, b, c]
     · rfl
   let sA : State := { s with gCtx := .qname }
@@ -214,7 +213,8 @@ theorem addQuestion_first (qn : WName) (qt qc : Nat) (s : State)
   · simp only [sE, sD, sC, sB, sA]
   · simp only [sE, sD, sC, sB, sA]
   · simp only [sE, sD, sC, sB, sA]; exact hsect
-  · unfold addQuestion
+  · rw [addQuestion_v0]
+    unfold V0.addQuestion
     simp only [hsect, ne_eq, not_true_eq_false, if_false, hqd, show ¬ (0 + 1 > 65535) by omega]
     have step : (do
         setCtx .qname
@@ -252,14 +252,8 @@ def optRecord (e : Edns) : List UInt8 :=
 
 theorem T_OPT_eq : T_OPT = 41 := by decide
 
-theorem componentTypes_opt (cls : Nat) : componentTypes cls 41 = [] := by
-  have h : ∀ a ∈ componentsTable, armMatches cls 41 a = false := by
-    intro a ha
-    have : a.types.any (fun t => (Gen.typeConsts.lookup t) == some 41) = false := by
-      revert a; decide
-    simp [armMatches, this]
-  unfold componentTypes
-  rw [List.find?_eq_none.mpr (by intro a ha; simp [h a ha])]
+theorem componentTypes_opt41 (cls : Nat) : componentTypes cls 41 = some [] :=
+  componentTypes_unknown cls 41 (by decide)
 
 theorem writeAt_append (d1 d2 : List UInt8) : ∀ (a : Bytes) (pos : Nat),
     writeAt (writeAt a pos d1) (pos + d1.length) d2 = writeAt a pos (d1 ++ d2) := by
@@ -278,7 +272,7 @@ theorem writeAt_append' (d1 d2 : List UInt8) (a : Bytes) (pos pos2 : Nat) (h : p
 
 /-- `add_rr` for the root owner and empty RDATA of a type without name components (OPT): the
     eleven octets are appended at the cursor -/
-theorem addRr_root_empty (ty cls ttl : Nat) (s0 : State) (hty : componentTypes cls ty = [])
+theorem addRr_root_empty (ty cls ttl : Nat) (s0 : State) (hty : componentTypes cls ty = some [])
     (h1 : s0.cursor + 11 ≤ s0.available) (h2 : s0.cursor + 11 ≤ s0.octets.size) :
     ∃ s', addRr .none WName.root ty cls ttl [] s0 = (.ok (), s') ∧
       s'.octets = writeAt s0.octets s0.cursor ([0] ++ u16be ty ++ u16be cls ++ u32be ttl ++ u16be 0) ∧
@@ -290,7 +284,8 @@ theorem addRr_root_empty (ty cls ttl : Nat) (s0 : State) (hty : componentTypes c
   simp only [root_wire, List.length_singleton] at hw
   let sB : State := { sA with octets := writeAt sA.octets sA.cursor [0], cursor := sA.cursor + 1, gLabels := gl }
   have hB : writeHintedName .none WName.root sA = (.ok p, sB) := by
-    unfold writeHintedName
+    rw [writeHintedName_v0]
+    unfold V0.writeHintedName
     rw [if_pos (Or.inr (by rw [root_wire]; decide))]
     exact hw
   let sC : State := { sB with gCtx := .none, mostRecentOwner := p }
@@ -329,7 +324,9 @@ theorem addRr_root_empty (ty cls ttl : Nat) (s0 : State) (hty : componentTypes c
   have hH : write sF.cursor (u16be ((sG.cursor - sF.cursor - 2) % 65536)) sG = (.ok (), sH) := by
     rw [e0, write_ok _ _ _ (by rw [cF, zG, u16be_length]; omega)]
   refine ⟨sH, ?_, ?_, ?_⟩
-  · unfold addRr
+  · have hty0 : V0.componentTypes cls ty = [] := by simp [V0.componentTypes, hty]
+    rw [addRr_v0]
+    unfold V0.addRr
     rw [bind_ok (show setCtx .owner s0 = (.ok (), sA) from rfl)]
     rw [bind_ok hB]
     rw [bind_ok (show setCtx .none sB = (.ok (), { sB with gCtx := .none }) from rfl)]
@@ -339,7 +336,7 @@ theorem addRr_root_empty (ty cls ttl : Nat) (s0 : State) (hty : componentTypes c
     rw [if_neg (show ¬ sF.available < sF.cursor by rw [aF, cF]; omega)]
     rw [if_neg (show ¬ sF.available - sF.cursor < 2 by rw [aF, cF]; omega)]
     rw [bind_ok (show (M.modify fun s => { s with cursor := s.cursor + 2 }) sF = (.ok (), sG) from rfl)]
-    rw [hty]
+    rw [hty0]
     rw [bind_ok (show writeComponents [] [] sG = (.ok (), sG) from rfl)]
     rw [bind_ok (get_apply _)]
     rw [if_neg (show ¬ sG.cursor < sF.cursor + 2 by rw [cG]; omega)]
@@ -367,7 +364,9 @@ theorem writeCounts_k {β} (s : State) (k : M β) (hsz : 12 ≤ s.octets.size) :
 theorem finish_plain (s : State) (macFn : Tsig → List UInt8 → List UInt8) (ht : s.tsig = none)
     (he : s.edns = none) (hsz : 12 ≤ s.octets.size) :
     finish s macFn = .ok ((withCounts s).extract 0 s.cursor, none) := by
-  unfold finish finishWithMac
+  unfold finish
+  rw [finishWithMac_v0]
+  unfold V0.finishWithMac
   have c : Gen.QDCOUNT_START = 4 ∧ Gen.ANCOUNT_START = 6 ∧ Gen.NSCOUNT_START = 8 ∧ Gen.ARCOUNT_START = 10 :=
     ⟨rfl, rfl, rfl, rfl⟩
   obtain ⟨c1, c2, c3, c4⟩ := c
@@ -386,7 +385,7 @@ theorem finishEdns_k (s4 : State) (e : Edns) (h1 : s4.cursor ≤ s4.available)
         unwrap (addRr .none WName.root T_OPT e.payload ((e.upper * 16777216) % 4294967296) [])
         k) s4 = k s1) ∧
       s1.octets = writeAt s4.octets s4.cursor (optRecord e) ∧ s1.cursor = s4.cursor + 11 := by
-  have hty : componentTypes e.payload T_OPT = [] := by rw [T_OPT_eq]; exact componentTypes_opt _
+  have hty : componentTypes e.payload T_OPT = some [] := by rw [T_OPT_eq]; exact componentTypes_opt41 _
   obtain ⟨s1, hadd, hoct, hcur1⟩ := addRr_root_empty T_OPT e.payload ((e.upper * 16777216) % 4294967296)
     { s4 with available := s4.available + Gen.OPT_RECORD_SIZE } hty
     (by show s4.cursor + 11 ≤ s4.available + 11; omega) (by show s4.cursor + 11 ≤ s4.octets.size; omega)
@@ -403,7 +402,9 @@ theorem finish_edns (s : State) (macFn : Tsig → List UInt8 → List UInt8) (e 
     (he : s.edns = some e) (hsz : 12 ≤ s.octets.size) (hcur : s.cursor ≤ s.available)
     (hav : s.available + 11 ≤ s.octets.size) :
     finish s macFn = .ok ((writeAt (withCounts s) s.cursor (optRecord e)).extract 0 (s.cursor + 11), none) := by
-  unfold finish finishWithMac
+  unfold finish
+  rw [finishWithMac_v0]
+  unfold V0.finishWithMac
   have c : Gen.QDCOUNT_START = 4 ∧ Gen.ANCOUNT_START = 6 ∧ Gen.NSCOUNT_START = 8 ∧ Gen.ARCOUNT_START = 10 :=
     ⟨rfl, rfl, rfl, rfl⟩
   obtain ⟨c1, c2, c3, c4⟩ := c
